@@ -70,9 +70,128 @@ def _fname(call: ast.Call) -> Optional[str]:
 class NumAlgebra(Algebra):
     """Algebra of sa/polyalg.py + numeric folding of constant sub-expressions."""
 
-    def __init__(self, fold: Optional[Callable[[ast.AST], Any]] = None):
+    def __init__(self, fold: Optional[Callable[[ast.AST], Any]] = None, helpers: Optional[Dict[str, ast.FunctionDef]] = None):
         super().__init__()
         self.fold = fold
+        self.helpers: Dict[str, ast.FunctionDef] = dict(helpers or {})  # module-level functions the torsion function may call
+        self._depth = 0
+
+    # -- sequences of algebraic values, comprehensions over them, calls of module-level helpers ---------------------------
+    def _bind_target(self, t: ast.AST, v: Any, env: Dict[str, Any]) -> None:
+        if isinstance(t, ast.Name):
+            env[t.id] = v
+        elif isinstance(t, (ast.Tuple, ast.List)) and isinstance(v, list) and len(v) == len(t.elts) and not any(isinstance(x, ast.Starred) for x in t.elts):
+            for a, b in zip(t.elts, v):
+                self._bind_target(a, b, env)
+        else:
+            raise AlgebraError(f"target `{ast.unparse(t)[:40]}` of a value that is not a sequence of the same length")
+
+    def _seq(self, e: ast.AST, env: Dict[str, Any]) -> Any:
+        """value of the sequence-level constructs, or NotImplemented"""
+        if isinstance(e, (ast.Tuple, ast.List)) and not any(isinstance(x, ast.Starred) for x in e.elts):
+            return [self.ev(x, env) for x in e.elts]
+        if isinstance(e, (ast.ListComp, ast.GeneratorExp)):
+            out: List[Any] = []
+
+            def rec(i: int, env2: Dict[str, Any]) -> None:
+                if i == len(e.generators):
+                    out.append(self.ev(e.elt, env2))
+                    return
+                g = e.generators[i]
+                if g.ifs or g.is_async:
+                    raise AlgebraError(f"filtered comprehension `{ast.unparse(e)[:50]}`")
+                it = self.ev(g.iter, env2)
+                if not isinstance(it, list):
+                    raise AlgebraError(f"`{ast.unparse(g.iter)[:40]}` is not a sequence of algebraic values")
+                for item in it:
+                    env3 = dict(env2)
+                    self._bind_target(g.target, item, env3)
+                    rec(i + 1, env3)
+
+            rec(0, dict(env))
+            return out
+        if isinstance(e, ast.Subscript):
+            try:
+                base = self.ev(e.value, env)
+            except AlgebraError:
+                return NotImplemented
+            if isinstance(base, list):
+                sl = e.slice
+                if isinstance(sl, ast.Slice):
+                    parts = [None if x is None else self._int(x) for x in (sl.lower, sl.upper, sl.step)]
+                    return base[slice(*parts)]
+                try:
+                    return base[self._int(sl)]
+                except IndexError:
+                    raise AlgebraError(f"`{ast.unparse(e)[:40]}`: index out of range")
+            if isinstance(base, Vec):
+                return base.c[self._int(e.slice)]
+            return NotImplemented
+        if isinstance(e, ast.Call) and not e.keywords and isinstance(e.func, ast.Name):
+            fn = e.func.id
+            if fn in ("zip", "list", "tuple", "reversed") and fn not in env and e.args:
+                args = [self.ev(a, env) for a in e.args]
+                if not all(isinstance(a, list) for a in args):
+                    raise AlgebraError(f"`{ast.unparse(e)[:40]}` over something that is not a sequence of algebraic values")
+                if fn == "zip":
+                    return [list(t) for t in zip(*args)]
+                if len(args) != 1:
+                    raise AlgebraError(f"`{ast.unparse(e)[:40]}`")
+                return list(reversed(args[0])) if fn == "reversed" else list(args[0])
+            if fn in self.helpers and fn not in env:
+                return self.call_helper(self.helpers[fn], [self.ev(a, env) for a in e.args])
+        return NotImplemented
+
+    def _int(self, e: ast.AST) -> int:
+        v = self.fold(e) if self.fold is not None else (e.value if isinstance(e, ast.Constant) else None)
+        if isinstance(v, bool) or not isinstance(v, int):
+            raise AlgebraError(f"index `{ast.unparse(e)[:30]}` is not a constant integer")
+        return v
+
+    def call_helper(self, fn: ast.FunctionDef, args: List[Any]) -> Any:
+        """A module-level helper interpreted in the algebra: straight-line assignments, `if` whose test is decided on the domain
+        (else both continuations must be positive multiples of the same vector), `return`."""
+        a = fn.args
+        params = [p.arg for p in a.args]
+        if a.vararg or a.kwarg or a.kwonlyargs or a.posonlyargs or len(args) > len(params) or len(args) < len(params) - len(a.defaults):
+            raise AlgebraError(f"call of `{fn.name}` with {len(args)} argument(s)")
+        if self._depth > 6:
+            raise AlgebraError(f"helper `{fn.name}` nests too deep")
+        env: Dict[str, Any] = dict(zip(params, args))
+        for p_, d in zip(params[len(params) - len(a.defaults) :], a.defaults):
+            if p_ not in env:
+                env[p_] = self.ev(d, {})
+        self._depth += 1
+        try:
+            v = self.run_block(list(fn.body), env)
+        finally:
+            self._depth -= 1
+        if v is None:
+            raise AlgebraError(f"helper `{fn.name}` ends without returning a value")
+        return v
+
+    def run_block(self, stmts: List[ast.stmt], env: Dict[str, Any]) -> Any:
+        for i, st in enumerate(stmts):
+            if isinstance(st, (ast.Expr, ast.Pass)):
+                continue
+            if isinstance(st, ast.Assign) and len(st.targets) == 1:
+                self._bind_target(st.targets[0], self.ev(st.value, env), env)
+            elif isinstance(st, ast.AnnAssign) and st.value is not None:
+                self._bind_target(st.target, self.ev(st.value, env), env)
+            elif isinstance(st, ast.Return) and st.value is not None:
+                return self.ev(st.value, env)
+            elif isinstance(st, ast.If):
+                rest = stmts[i + 1 :]
+                side = self._tiny_lower_bound(st.test, env)
+                if side is not None:
+                    return self.run_block(list(st.body if side else st.orelse) + rest, env)
+                x, y = self.run_block(list(st.body) + rest, dict(env)), self.run_block(list(st.orelse) + rest, dict(env))
+                if isinstance(x, Vec) and isinstance(y, Vec):
+                    return self.join_pos_scaled(x, y)
+                raise AlgebraError(f"`if {ast.unparse(st.test)[:40]}` is not decided on the domain of the property")
+            else:
+                raise AlgebraError(f"statement `{ast.unparse(st)[:50]}` in a helper")
+        return None
 
     def _num(self, e: ast.AST) -> Optional[Poly]:
         if self.fold is None:
@@ -146,6 +265,15 @@ class NumAlgebra(Algebra):
         return None
 
     def ev(self, e: ast.AST, env: Dict[str, Any]) -> Any:
+        r = self._seq(e, env)
+        if r is not NotImplemented:
+            return r
+        try:
+            return self._ev(e, env)
+        except (TypeError, AttributeError, ValueError, KeyError) as ex:  # an operation of the algebra applied to a sequence etc.
+            raise AlgebraError(f"`{ast.unparse(e)[:50]}`: {type(ex).__name__}")
+
+    def _ev(self, e: ast.AST, env: Dict[str, Any]) -> Any:
         if isinstance(e, ast.Name):
             if e.id in env:
                 v = env[e.id]
@@ -213,8 +341,8 @@ def _angle_call(n: ast.AST) -> bool:
     return name in ANGLE_FUNCS
 
 
-def analyse(fn: ast.FunctionDef, fold: Optional[Callable[[ast.AST], Any]] = None) -> Dict[str, Any]:
-    alg = NumAlgebra(fold)
+def analyse(fn: ast.FunctionDef, fold: Optional[Callable[[ast.AST], Any]] = None, helpers: Optional[Dict[str, ast.FunctionDef]] = None) -> Dict[str, Any]:
+    alg = NumAlgebra(fold, helpers)
     pnames = [a.arg for a in fn.args.args][:4]
     if len(pnames) != 4:
         raise AlgebraError("torsion function does not take four points")
@@ -250,6 +378,8 @@ def analyse(fn: ast.FunctionDef, fold: Optional[Callable[[ast.AST], Any]] = None
                 if not isinstance(a, ast.Name):
                     raise AlgebraError(f"assignment target `{ast.unparse(a)[:40]}`")
                 env[a.id] = b
+        elif isinstance(t, (ast.Tuple, ast.List)):
+            alg._bind_target(t, alg.ev(v, env), env)  # a sequence value (comprehension, helper result) unpacked
         else:
             raise AlgebraError(f"assignment outside the straight-line idiom: {ast.unparse(t)[:40]} = {ast.unparse(v)[:40]}")
 
@@ -267,6 +397,18 @@ def analyse(fn: ast.FunctionDef, fold: Optional[Callable[[ast.AST], Any]] = None
             bind(st.target, st.value)
         elif is_guard(st):
             guards.append((st, dict(env), dict(defs)))
+        elif isinstance(st, ast.If) and not any(isinstance(n, (ast.Return, ast.If, ast.For, ast.While)) for b in (st.body, st.orelse) for x in b for n in ast.walk(x)):
+            # a two-way assignment block: the branch that is taken on the whole domain of the property (`if |b2| > 1e-6: ... else: ...`)
+            side = alg._tiny_lower_bound(st.test, env)
+            if side is None:
+                raise AlgebraError(f"`if {ast.unparse(st.test)[:40]}` is not decided on the domain of the property")
+            for sub in (st.body if side else st.orelse):
+                if isinstance(sub, ast.Assign) and len(sub.targets) == 1:
+                    bind(sub.targets[0], sub.value)
+                elif isinstance(sub, ast.AnnAssign) and sub.value is not None:
+                    bind(sub.target, sub.value)
+                elif not isinstance(sub, (ast.Expr, ast.Pass)):
+                    raise AlgebraError(f"statement outside the straight-line idiom: {ast.unparse(sub)[:60]}")
         else:
             raise AlgebraError(f"statement outside the straight-line idiom: {ast.unparse(st)[:60]}")
     if at_stmt is None or not isinstance(at_stmt, (ast.Assign, ast.AnnAssign, ast.Return)):
@@ -285,8 +427,15 @@ def analyse(fn: ast.FunctionDef, fold: Optional[Callable[[ast.AST], Any]] = None
     x_pos = x_neg = None
     if len(monos) == 1:
         pm = monos.pop()
-        x_pos = alg.is_zero(add(x, mul({pm: Fraction(1)}, xref), -1))
-        x_neg = alg.is_zero(add(x, mul({pm: Fraction(1)}, xref)))
+        # x = c * pm * x_ref with a rational c read off one monomial (c = 1/16 for vectors of half the unit length ...)
+        from .polyalg import mmul
+
+        m0 = min(xref) if xref else None
+        cx = x.get(mmul(pm, m0)) if m0 is not None else None
+        c = (cx / xref[m0]) if cx else Fraction(1)
+        prop = alg.is_zero(add(x, mul({pm: c}, xref), -1))
+        x_pos = bool(prop and c > 0)
+        x_neg = bool(prop and c < 0)
     # names of the quantities that vanish in the degenerate cases
     quantities = {
         alg_atom(alg, alg.cross(b1, b2)): ("cross", (1, 2)),
@@ -411,6 +560,31 @@ def guard_tree(test: ast.AST, env: Dict[str, Any], alg: NumAlgebra, defs: Option
         return ("atom", {"monomial": mono, "c": float(cb / cs), "text": text})
 
     def node(t: ast.AST, positive: bool) -> Tuple:
+        if isinstance(t, ast.Call) and isinstance(t.func, ast.Name) and t.func.id in ("any", "all") and len(t.args) == 1 and not t.keywords:
+            # any(P(x) for x in xs) is the disjunction of P over the elements, all(...) the conjunction (negation pushed inwards)
+            is_or = (t.func.id == "any") == positive
+            a = t.args[0]
+            if isinstance(a, (ast.List, ast.Tuple)):
+                return ("or" if is_or else "and", [node(x, positive) for x in a.elts])
+            if isinstance(a, (ast.GeneratorExp, ast.ListComp)) and len(a.generators) == 1 and not a.generators[0].ifs:
+                g = a.generators[0]
+                try:
+                    items = alg.ev(g.iter, env)
+                except AlgebraError as ex:
+                    raise NotAThreshold(f"`{ast.unparse(t)[:60]}`: {ex}")
+                if not isinstance(items, list) or not items:
+                    raise NotAThreshold(f"`{ast.unparse(t)[:60]}` does not range over a sequence of algebraic values")
+                kids = []
+                for item in items:
+                    env2 = dict(env)
+                    try:
+                        alg._bind_target(g.target, item, env2)
+                    except AlgebraError as ex:
+                        raise NotAThreshold(f"`{ast.unparse(t)[:60]}`: {ex}")
+                    sub = a.elt if positive else ast.UnaryOp(op=ast.Not(), operand=a.elt)
+                    kids.append(guard_tree(sub, env2, alg, defs))
+                return ("or" if is_or else "and", kids)
+            raise NotAThreshold(f"`{ast.unparse(t)[:60]}` is not a comparison")
         if isinstance(t, ast.BoolOp):
             is_or = isinstance(t.op, ast.Or)
             return ("or" if is_or == positive else "and", [node(v, positive) for v in t.values])
